@@ -3,6 +3,7 @@ package checks
 import (
 	"bytes"
 	"fmt"
+	"go/types"
 	"io"
 	"log"
 	"os"
@@ -29,15 +30,69 @@ import (
 var (
 	xgocOnce sync.Once
 	xgocFset *token.FileSet
-	xgocImp  *tool.Importer
+	xgocImp  types.Importer
 )
+
+// memoImporter remembers failed imports (each failing `go list` costs about a second).
+type memoImporter struct {
+	inner *tool.Importer
+	mu    sync.Mutex
+	errs  map[string]error
+}
+
+func (m *memoImporter) Import(path string) (*types.Package, error) {
+	m.mu.Lock()
+	if e, ok := m.errs[path]; ok {
+		m.mu.Unlock()
+		return nil, e
+	}
+	m.mu.Unlock()
+	pkg, err := m.inner.Import(path)
+	if err != nil {
+		m.mu.Lock()
+		m.errs[path] = err
+		m.mu.Unlock()
+	}
+	return pkg, err
+}
+
+// importCacheFile is written by the driver (xgocWarm) and loaded by every worker: it maps package paths to the
+// export files `go list -export` produced, so that workers do not each spend a minute on `go list`.
+var importCacheFile string
 
 func xgocInit(repo string) {
 	xgocOnce.Do(func() {
 		log.SetOutput(io.Discard) // cl and the importer log through the standard logger
 		xgocFset = token.NewFileSet()
-		xgocImp = tool.NewImporter(nil, &env.XGo{Version: "1.0", Root: repo}, xgocFset)
+		imp := tool.NewImporter(nil, &env.XGo{Version: "1.0", Root: repo}, xgocFset)
+		if importCacheFile != "" {
+			imp.Cache().Load(importCacheFile)
+		}
+		xgocImp = &memoImporter{inner: imp, errs: map[string]error{}}
 	})
+}
+
+var xgocCommonPkgs = []string{"fmt", "os", "strings", "strconv", "sort", "errors", "math", "time", "testing", "bytes", "io", "reflect", "sync", "context", "bufio", "unicode", "unicode/utf8", "math/big", "math/rand", "regexp", "path", "path/filepath", "net/http", "encoding/json", "log", "flag", "runtime", "unsafe",
+	"github.com/qiniu/x/stringutil", "github.com/qiniu/x/errors", "github.com/qiniu/x/xgo/ng", "github.com/qiniu/x/stringslice", "github.com/qiniu/x/osx", "github.com/qiniu/x/xgo", "github.com/qiniu/x/test",
+	"github.com/goplus/xgo/builtin", "github.com/goplus/xgo/builtin/iox", "github.com/goplus/xgo/cl/internal/spx", "github.com/goplus/xgo/cl/internal/spx2", "github.com/goplus/xgo/test", "github.com/goplus/xgo/tpl", "github.com/goplus/xgo/tpl/variant", "github.com/goplus/xgo/tpl/variant/builtin"}
+
+// xgocWarm runs in the driver: one `go list -export` for the commonly imported packages, saved for the workers.
+func xgocWarm(e *fw.Env) {
+	file := e.Scratch + "/importcache"
+	importCacheFile = file
+	if e.Worker {
+		return
+	}
+	log.SetOutput(io.Discard)
+	fset := token.NewFileSet()
+	imp := tool.NewImporter(nil, &env.XGo{Version: "1.0", Root: e.Repo}, fset)
+	// packages that do not exist here make the whole `go list` fail: add them one group at a time
+	if err := imp.Cache().Prepare(e.Repo, xgocCommonPkgs...); err != nil {
+		for _, p := range xgocCommonPkgs {
+			imp.Cache().Prepare(e.Repo, p)
+		}
+	}
+	imp.Cache().Save(file)
 }
 
 // xgocLookupClass mirrors the class table the repository's own cl tests use.
